@@ -105,11 +105,24 @@ func runC08(c0 *h.Ctx) {
 						c.Violation("an honest request is refused by the attester", det)
 						continue
 					}
-					_, brk, err := env.issuer.Evaluate(st.Request().Marshal())
+					respEv, brk, err := env.issuer.Evaluate(st.Request().Marshal())
 					if err != nil {
 						det["err"] = err.Error()
 						c.Violation("an honest request is refused by the issuer", det)
 						continue
+					}
+					// the two results are independent values: the attester appends a trailer to the response it forwards
+					// (writes into its spare capacity) before it derives the ID from the key
+					{
+						keep := clone(brk)
+						ext := respEv[:cap(respEv)]
+						for k := len(respEv); k < len(ext); k++ {
+							ext[k] ^= 0x5A
+						}
+						if !bytes.Equal(brk, keep) {
+							c.Violation("the issuer's blinded request key is unaffected by what the caller does with the response returned beside it", det)
+							continue
+						}
 					}
 					// Evaluate's second return value = [b_o * b_c * d]G
 					me := c.Model("ecdsa_blind_exp", []byte{3}, secret, blind, ctxClientBlind)
